@@ -154,7 +154,8 @@ impl Model {
         }
         for _ in gens {
             v.push(700); // registered constant
-            v.push(800); // captured by the registered closure
+            v.push(800); // captured by the first registered closure
+            v.push(801); // captured by the second closure of the same Rust type
         }
         v.sort();
         v
@@ -254,13 +255,13 @@ fn cached(tier: Tier) -> &'static (Vec<(Vec<Op>, Op)>, usize) {
 const V1: &str = "\
 const KT: Tr = mk(901);
 const KI: u64 = 11;
-fn f(x: u64) -> u64 { x + KI + cap() + RC.payload() + KT.payload() }
+fn f(x: u64) -> u64 { x + KI + cap() + cap2() - 801 + RC.payload() + KT.payload() }
 ";
 const V2: &str = "\
 const KT: Tr = mk(902);
 const KI: u64 = 22;
 fn helper(x: u64) -> u64 { x * 2 }
-fn f(x: u64) -> u64 { helper(x) + KI + cap() + RC.payload() + KT.payload() }
+fn f(x: u64) -> u64 { helper(x) + KI + cap() + cap2() - 801 + RC.payload() + KT.payload() }
 ";
 
 type H = TypedFunc<NoCtx, fn(u64) -> u64>;
@@ -299,18 +300,25 @@ fn sink(ev: &roto::verif::Event) {
 
 static DEAD_GLOBAL: std::sync::atomic::AtomicU64 = std::sync::atomic::AtomicU64::new(0);
 
+/// Two closures of the SAME Rust type (one closure expression, two values)
+fn capturing(t: host::Tr) -> impl Fn() -> u64 + Send + Sync + 'static {
+    move || {
+        // capture the whole tracked value, not just its (Copy) payload field
+        let whole: &host::Tr = &t;
+        whole.payload
+    }
+}
+
 fn new_runtime() -> Runtime<NoCtx> {
-    let captured = host::Tr::new(800);
     let lib = library! {
         const RC: Val<host::Tr> = Val(host::Tr::new(700));
-        let cap = move || -> u64 {
-            // capture the whole tracked value, not just its (Copy) payload field
-            let whole: &host::Tr = &captured;
-            whole.payload
-        };
     };
     let mut rt = Runtime::from_lib(host::lib()).expect("host lib");
     rt.add(lib).expect("c11 lib");
+    rt.add(roto::Function::new("cap", "", vec![], capturing(host::Tr::new(800)), roto::location!()).expect("cap"))
+        .expect("add cap");
+    rt.add(roto::Function::new("cap2", "", vec![], capturing(host::Tr::new(801)), roto::location!()).expect("cap2"))
+        .expect("add cap2");
     rt
 }
 
